@@ -16,11 +16,21 @@
    below the capacity in total; the data-carrying channels are unrestricted (below / at / above capacity).
    Not proved here (partial): the remote placement (comms threads, socket, ssh) - differential only;
    "every fault the doer *answered* is seen by the boss before the Done marker" is C07's theorem. *)
-From RJ Require Import Base.Prelude Model.Shutdown Proofs.ShutdownProofs Proofs.ShutdownInv Proofs.ShutdownNoStuck.
+From RJ Require Import Base.Prelude Model.Shutdown Proofs.ShutdownProofs Proofs.ShutdownInv Proofs.ShutdownNoStuck Proofs.ShutdownImpl.
 
 Theorem C09_no_stuck : forall c x s,
   fixed c = true -> ctl_ok c x -> reach c x s -> final s = true \/ exists s', step c s s'.
 Proof. exact no_stuck. Qed.
+
+(* The running code implements the repaired protocol (behavioural facts regenerated from the code on every
+   run: a sender waiting for capacity wakes when its receiver is dropped; the local Comms::shutdown returns
+   although the doer waits for capacity) - so (a) is a statement about the protocol the code runs. *)
+Theorem C09_impl_repaired : impl_fixed = true.
+Proof. exact impl_repaired. Qed.
+
+Theorem C09_no_stuck_impl : forall c x s,
+  fixed c = impl_fixed -> ctl_ok c x -> reach c x s -> final s = true \/ exists s', step c s s'.
+Proof. exact no_stuck_impl. Qed.
 
 Theorem C09_step_decreases : forall c s s', step c s s' -> mu s' < mu s.
 Proof. intros c s s' [a H]. exact (step_decreases c a s s' H). Qed.
